@@ -68,6 +68,12 @@ type target struct {
 }
 
 func (t *target) ServeHTTP(w http.ResponseWriter, r *http.Request) {
+	if r.URL.Path != "/c06" {
+		// the second pool (sig=FAULT): answered, not counted
+		w.Header().Set("Content-Length", "2")
+		_, _ = w.Write([]byte("ok"))
+		return
+	}
 	t.mu.Lock()
 	t.started++
 	t.mu.Unlock()
@@ -121,6 +127,49 @@ func procOnce(bin, sig string, at time.Duration, rps, procs int, resKind string)
 			return procResult{inconclusive: "stale-file"}
 		}
 	}
+	duration := "60s"
+	if sig == "NONE" {
+		// the run ends by itself after `at` ms
+		duration = fmt.Sprintf("%dms", at/time.Millisecond)
+	}
+	// sig=FAULT: a second pool whose ammo comes through a named pipe the harness writes to; at the chosen instant the
+	// harness writes a line the provider cannot decode: that pool fails, Engine.Run returns the error, and the process
+	// has to wait for the FIRST pool's aggregator before it exits (cli.go, the `case err := <-errs` branch)
+	secondPool := ""
+	var fifo *os.File
+	if sig == "FAULT" {
+		fifoPath := filepath.Join(dir, "ammo.fifo")
+		if err := syscall.Mkfifo(fifoPath, 0o600); err != nil {
+			return procResult{inconclusive: "mkfifo"}
+		}
+		f, err := os.OpenFile(fifoPath, os.O_RDWR, 0)
+		if err != nil {
+			return procResult{inconclusive: "open-fifo"}
+		}
+		fifo = f
+		defer fifo.Close()
+		if _, err := fifo.WriteString(strings.Repeat("/c06b tagB\n", 3)); err != nil {
+			return procResult{inconclusive: "write-fifo"}
+		}
+		secondPool = fmt.Sprintf(`  - id: c06b
+    gun:
+      type: http
+      target: %s
+    ammo:
+      type: uri
+      file: %s
+    result:
+      type: phout
+      destination: %s
+    rps:
+      type: const
+      ops: 5
+      duration: 60s
+    startup:
+      type: once
+      times: 1
+`, ln.Addr().String(), fifoPath, filepath.Join(dir, "phout-b.log"))
+	}
 	cfg := fmt.Sprintf(`pools:
   - id: c06
     gun:
@@ -135,13 +184,13 @@ func procOnce(bin, sig string, at time.Duration, rps, procs int, resKind string)
     rps:
       type: const
       ops: %d
-      duration: 60s
+      duration: %s
     startup:
       type: once
       times: 4
-log:
+%slog:
   level: error
-`, ln.Addr().String(), resultConf, rps)
+`, ln.Addr().String(), resultConf, rps, duration, secondPool)
 	cfgPath := filepath.Join(dir, "load.yaml")
 	if err := os.WriteFile(cfgPath, []byte(cfg), 0o644); err != nil {
 		return procResult{inconclusive: "config"}
@@ -170,18 +219,32 @@ log:
 		<-exited
 		return procResult{inconclusive: "no-request-in-15s"}
 	}
-	time.Sleep(at)
-	s := syscall.SIGTERM
-	if sig == "INT" {
-		s = syscall.SIGINT
-	}
-	tsig := time.Now()
-	if err := cmd.Process.Signal(s); err != nil {
-		_ = cmd.Process.Kill()
-		<-exited
-		return procResult{inconclusive: "signal"}
-	}
+	var tsig time.Time
 	var werr error
+	switch sig {
+	case "NONE":
+		// no signal: the schedule ends the run; everything answered until the exit must be there
+	case "FAULT":
+		time.Sleep(at)
+		tsig = time.Now()
+		if _, err := fifo.WriteString("[this is not a header\n"); err != nil {
+			_ = cmd.Process.Kill()
+			<-exited
+			return procResult{inconclusive: "write-fifo"}
+		}
+	default:
+		time.Sleep(at)
+		s := syscall.SIGTERM
+		if sig == "INT" {
+			s = syscall.SIGINT
+		}
+		tsig = time.Now()
+		if err := cmd.Process.Signal(s); err != nil {
+			_ = cmd.Process.Kill()
+			<-exited
+			return procResult{inconclusive: "signal"}
+		}
+	}
 	select {
 	case werr = <-exited:
 	case <-time.After(45 * time.Second):
@@ -190,11 +253,18 @@ log:
 		return procResult{inconclusive: "no-exit-in-45s"}
 	}
 	texit := time.Now()
+	if sig == "NONE" {
+		tsig = texit.Add(procMargin) // every request the target answered counts
+	}
 	res := procResult{}
 	if ee, ok := werr.(*exec.ExitError); ok {
 		res.exit = ee.ExitCode()
 	}
 	res.timedOut = strings.Contains(stderr.String(), "timeout exceeded")
+	if sig == "FAULT" && !strings.Contains(stderr.String(), "Engine run failed") {
+		// the process ended for another reason than the failure that was injected (the second pool did not start, …)
+		return procResult{inconclusive: "no-engine-failure:" + drv_clean(lastLine(stderr.String()))}
+	}
 	res.sinceSignal = int(texit.Sub(tsig) / time.Millisecond)
 	tg.mu.Lock()
 	res.started = tg.started
